@@ -375,7 +375,8 @@ class C07(Check):
             'and its negation, negations, and (side stream) connectives; bodies that wake in the very step the controller '
             'acts; optional run(till=T) with T >= start. Oracle: C01 clock model + independent evaluation of the trigger '
             'time. non-trivial = notification already true on entry, or trigger and completion in one time step, or '
-            'nesting >= 2 untils, or till; distinct by sha1.')
+            'nesting >= 2 untils, or till; distinct by sha1. Side streams: one condition object reused by several blocks, connectives '
+            'whose operands toggle back and forth, nested untils fired in one step while the body unwinds through asynchronous clean-up.')
     budgets = {'quick': dict(examples=2400, procs=4), 'thorough': dict(examples=200000, procs=16)}
     level_text = ('For every generated program the exit time of every block must equal min(trigger, completion, enclosing '
                   'triggers) from the model, every event before that time must happen and none after it, blocks ended by '
